@@ -29,7 +29,8 @@ package basestreamseeder
 //@   ghost gSendSession = r.SessionID
 //@
 //@ // what NotifyRequestReceived hands to the reader: a record with both peer callbacks and both session locators set
-//@ chaninv BaseSeeder.notifyReceivedRequest(v): v != nil && v.peer.SendChunk != nil && v.peer.Misbehaviour != nil && v.request.Session.Start != nil && v.request.Session.Stop != nil
+//@ chaninv BaseSeeder.notifyReceivedRequest(v): v != nil && v.peer.SendChunk != nil && v.peer.Misbehaviour != nil && v.request.Session.Start != nil && v.request.Session.Stop != nil &&
+//@   v.request.MaxChunks <= owner.cfg.MaxResponseChunks && v.request.MaxPayloadNum <= owner.cfg.MaxResponsePayloadNum && v.request.MaxPayloadSize <= owner.cfg.MaxResponsePayloadSize
 //@
 //@ spec sok(s *BaseSeeder, st sessionState) bool = st.origSelector != nil && st.next != nil && st.stop != nil && st.sendChunk != nil && 0 <= st.senderI && st.senderI < len(s.senders)
 //@ inv BaseSeeder seedinv(s): s != nil && s.sessions != nil && s.peerSessions != nil && s.callback.ForEachItem != nil && s.cfg.SenderThreads > 0 && s.cfg.SenderThreads <= 2147483647 && len(s.senders) == s.cfg.SenderThreads &&
@@ -55,11 +56,15 @@ package basestreamseeder
 //@   requires key != nil
 //@   modifies lastKey
 //@   preserves lastKey != nil && session.stop != nil
+//@   ensures  [stop] result == (key.Compare(session.stop) < 0)
+//@   ensures  [remember] (result ==> lastKey == key) && (!result ==> lastKey == old(lastKey))
 //@ // the size filter handed to ForEachItem
 //@ func (*BaseSeeder).readerLoop$2
 //@   requires items != nil
 //@   modifies allConsumed
 //@   preserves op != nil
+//@   ensures  [limits] result == !(items.Len() % 4294967296 >= op.request.MaxPayloadNum || items.TotalSize() >= op.request.MaxPayloadSize)
+//@   ensures  [flag] (!result ==> !allConsumed) && (result ==> allConsumed == old(allConsumed))
 //@ // the sender task: one SendChunk call with the prepared response, then the pending memory is released
 //@ func (*BaseSeeder).readerLoop$3
 //@   requires s != nil && session.sendChunk != nil
@@ -69,14 +74,15 @@ package basestreamseeder
 //@ func (*BaseSeeder).readerLoop
 //@   requires seedinv(s)
 //@   interference s.done, s.pendingResponsesSize
-//@   modifies s.sessions[*], s.peerSessions[*], s.sessionsCounter, s.pendingResponsesSize, s.done, allelems(uint32)
-//@   loop 1 modifies s.sessions[*], s.peerSessions[*], s.sessionsCounter, s.pendingResponsesSize, s.done, allelems(uint32)
+//@   modifies s.sessions[*], s.peerSessions[*], s.sessionsCounter, s.pendingResponsesSize, s.done, allelems(uint32), gIncArg, gIncRes
+//@   loop 1 modifies s.sessions[*], s.peerSessions[*], s.sessionsCounter, s.pendingResponsesSize, s.done, allelems(uint32), gIncArg, gIncRes
 //@   loop 1 invariant seedinv(s)
 //@   loop 1 hint assert [resumable] forall(k sessionIDAndPeer, iterold(has(s.sessions, k)) && !has(s.sessions, k) ==> !has(s.peerSessions, k.peer) || (s.peerSessions[k.peer] != iterold(s.peerSessions[k.peer]) && iterold(len(s.peerSessions[k.peer])) > 2))
 //@   loop 2 modifies s.sessions[*]
 //@   loop 2 invariant seedinv(s) && 0 <= _k && _k <= len(_range)
 //@   loop 2 invariant [onlypeer] forall(k sessionIDAndPeer, atentry(has(s.sessions, k)) && !has(s.sessions, k) ==> k.peer == peerID)
+//@   at call workers.Workers).Enqueue[1] requires [cursor] session.next == gIncRes && gIncArg == lastKey
 //@   at call workers.Workers).Enqueue[1] requires [donemark] resp.Done == session.done && resp.SessionID == op.request.Session.ID && has(s.sessions, mk("sessionIDAndPeer", op.request.Session.ID, op.peer.ID)) && s.sessions[mk("sessionIDAndPeer", op.request.Session.ID, op.peer.ID)].done == resp.Done
-//@   loop 3 modifies s.sessions[*], s.pendingResponsesSize
+//@   loop 3 modifies s.sessions[*], s.pendingResponsesSize, gIncArg, gIncRes
 //@   loop 3 invariant seedinv(s) && op != nil && sok(s, session)
 //@   loop 3 invariant [keeps] forall(k sessionIDAndPeer, atentry(has(s.sessions, k)) ==> has(s.sessions, k))
